@@ -8,9 +8,12 @@
   data ops ; schema ; body ; op ; op …                                  → statuses and final body
      op = U body | I body | P body | DC i | DR i nk hkey* | R i data
   data entry ; schema ; nk hkey* ; docbody ; entrybody                  → edit addressed at one entry (Model/EntryKey)
+  data find ; schema ; body ; nseg (i nk hkey*)*                        → Model/Find: "found body <leaf views>" | "found rows <keys>" |
+                                                                          "found leaf <v>" | "none" | "notFound" | "bad"
 -/
 import YangVerif.Model.Data
 import YangVerif.Model.EntryKey
+import YangVerif.Model.Find
 import YangVerif.Model.Util
 namespace YangVerif.Drv.Data
 open YangVerif YangVerif.Data
@@ -172,6 +175,31 @@ def opStatus (ks : List Schema) (body : List Data) : Op → String
   | .replace i d => match replaceChild ks i d body with | .ok _ => "ok" | .error e => showErr e
   | _ => "ok"
 
+/-- the leaves of a selected node as `Get` reads them: value, else default -/
+def leafViews : List Schema → List Data → List String
+  | .leaf d :: ss, .leaf v :: ds => showOpt (match v with | some x => some x | none => d) :: leafViews ss ds
+  | _ :: ss, _ :: ds => "-" :: leafViews ss ds
+  | _, _ => []
+
+def pSegs : Nat → P (List Find.Seg)
+  | 0, r => some ([], r)
+  | n + 1, i :: nk :: r => match i.toNat?, nk.toNat? with
+    | some i, some nk => match pKeys nk r with
+      | some (k, r1) => match pSegs n r1 with
+        | some (ss, r2) => some (⟨i, k⟩ :: ss, r2)
+        | none => none
+      | none => none
+    | _, _ => none
+  | _, _ => none
+
+def showFind : Find.Res → String
+  | .found (.body ks b) => "found body " ++ " ".intercalate (leafViews ks b)
+  | .found (.rows _ rows) => "found rows " ++ " ".intercalate (rows.map fun r => ",".intercalate (r.1.map hx))
+  | .found (.leaf v) => "found leaf " ++ showOpt v
+  | .none => "none"
+  | .notFound => "notFound"
+  | .bad => "bad"
+
 def handle (toks : List String) : String :=
   let fuel := toks.length + 5
   match toks with
@@ -203,6 +231,16 @@ def handle (toks : List String) : String :=
         | some (k, []) => showRes (editEntry ks k d b)
         | _ => "bad-op key"
       | _, _, _, _ => "bad-op parse"
+    | _ => "bad-op"
+  | "find" :: ";" :: rest =>
+    match splitSemi rest with
+    | [sc, body, n :: segs] =>
+      match pSchemaList fuel sc, pBody fuel body, n.toNat? with
+      | some (ks, []), some (b, []), some n =>
+        match pSegs n segs with
+        | some (p, []) => showFind (Find.find ks b p)
+        | _ => "bad-op segs"
+      | _, _, _ => "bad-op parse"
     | _ => "bad-op"
   | "ops" :: ";" :: rest =>
     match splitSemi rest with
